@@ -2,7 +2,8 @@
    Only statements here; every proof is `exact <lemma>` into Proofs/.  All theorems hold for an arbitrary
    user-code oracle `body` (called with ORIGINAL parameter names) and output picker `pick`. *)
 From Verif Require Import Base.Prelude Base.StrOrd Base.StrUtil Base.Graph Model.Pipe Model.Rewrite Model.Alias
-  Proofs.GraphFacts Proofs.RewriteFacts Proofs.AliasFacts Proofs.NestFacts Proofs.SplitFacts Proofs.C10Witness.
+  Proofs.GraphFacts Proofs.RewriteFacts Proofs.AliasFacts Proofs.NestFacts Proofs.SplitFacts Proofs.MultiNestFacts Proofs.SimplifyFacts Proofs.C10Witness
+  Proofs.AliasOwnFacts Proofs.AliasSepFacts Corr.PipeObs Corr.Run_C10 Proofs.C10Capstone Proofs.PipeFacts Proofs.NRunFacts.
 
 (* ---------- renaming ---------- *)
 (* rename_preserves: for a renaming that is one-to-one on the names involved, the renamed pipeline evaluates the
@@ -174,6 +175,53 @@ Example C10_example_isolated :
                         /\ Alias.pobs h3 P = Alias.pobs h2 P /\ Alias.pobs h3 Q <> Alias.pobs h2 Q).
 Proof. exact alias_instance. Qed.
 
+(* ownership across operation SEQUENCES.  Sep h R: the pipelines R are well-formed object trees (every object
+   reachable from a root - the Pipeline object, its PipeFunc objects, the inner pipelines of nested functions -
+   exists and is reached once) and no object belongs to two of them; they may share any number of dicts.
+   Every operation on pipelines of R keeps Sep and adds the pipeline it returns to the roots: copies, joins, pickles,
+   simplified and split pipelines own fresh objects; the in-place operations keep the objects of their target or
+   add fresh ones. *)
+Theorem C10_step_sep : forall spec_ren h R x h' r, Sep h R -> incl (operands x) R ->
+  Alias.step spec_ren h x = Some (h', r) -> Sep h' (R ++ result_roots r).
+Proof. exact step_sep. Qed.
+Print Assumptions C10_step_sep.
+
+(* a pipeline built from descriptions is such a root (and so is every pipeline built after it) *)
+Theorem C10_build_sep : forall h ds h' P R, Alias.build h ds = Some (h', P) -> Sep h R -> AliasFacts.prefix h h' /\ Sep h' (R ++ [P]).
+Proof. exact build_sep. Qed.
+Print Assumptions C10_build_sep.
+
+(* mutation_isolated along EVERY sequence (the disjointness of the intermediate heaps is derived, not assumed as in
+   C10_mutation_isolated_seq): starting from separated roots, along any sequence of operations on them and on the
+   pipelines those operations return (steps_r checks only that the operands are roots), the observable state of a
+   root q changes only through the operations applied to q itself *)
+Theorem C10_mutation_isolated_everywhere : forall spec_ren q v xs h R h' R',
+  Sep h R -> In q R -> steps_r spec_ren h R xs = Some (h', R') ->
+  (forall x, In x xs -> Alias.target x <> Some q) ->
+  Alias.pobs h q = Some v -> Alias.pobs h' q = Some v /\ Sep h' R'.
+Proof. exact mutation_isolated_everywhere. Qed.
+Print Assumptions C10_mutation_isolated_everywhere.
+
+Example C10_example_sep :
+  let ds := [ {| Alias.d_name := s "f"; Alias.d_outs := [s "a"]; Alias.d_params := [(s "x", s "x"); (s "y", s "y")];
+                 Alias.d_sigd := []; Alias.d_defs := [(s "y", s "dy")]; Alias.d_bound := []; Alias.d_cached := false |} ] in
+  exists h P, Alias.build [] ds = Some (h, P) /\ Sep h [P]
+    /\ exists h2 Q h3, steps_r no_spec_ren h [P] [Alias.HCopy P] = Some (h2, [P; Q])
+       /\ steps_r no_spec_ren h [P] [Alias.HCopy P; Alias.HUpdateDefaults Q [(s "x", s "dx")]; Alias.HDrop Q (s "a")] = Some (h3, [P; Q])
+       /\ Alias.pobs h3 P = Alias.pobs h P /\ Alias.pobs h3 Q <> Alias.pobs h2 Q.
+Proof. exact sep_instance. Qed.
+
+(* capstone for the aliasing probes of the correspondence (kind CAlias): for EVERY case - any pipeline description,
+   rewrite, side, mutation and calls - the observation computed on the heap model satisfies the executable statement
+   spec_ok, unless the case is outside the domain of the model (an operation refuses: bad_case, which the harness
+   counts as a failure, never as agreement).  So spec_bad = 0 for this kind is a theorem, and the correspondence
+   run compares the implementation with an observation that is PROVEN to satisfy the property. *)
+Theorem C10_alias_spec_ok : forall ds rw side m callA callB,
+  run (CAlias ds rw side m callA callB) = bad_case
+  \/ spec_ok (CAlias ds rw side m callA callB) (run (CAlias ds rw side m callA callB)) = true.
+Proof. exact alias_spec_ok. Qed.
+Print Assumptions C10_alias_spec_ok.
+
 (* ---------- dotted keys vs nested dicts ---------- *)
 (* Pipeline._flatten_scopes expands dicts in place: whatever mixture of nested dicts and dotted keys is passed
    (no two spellings of one keyword: NoDup all_keys), the flat keyword list it denotes (flat_of) is unchanged;
@@ -206,6 +254,66 @@ Theorem C10_neval_lift : forall body pick fuel p kw o,
   neval body pick fuel (lift p) kw o = eval body pick fuel p kw o.
 Proof. exact neval_lift. Qed.
 Print Assumptions C10_neval_lift.
+
+(* ---------- the run model of this layer vs the specification (run_eq_eval for nodes) ---------- *)
+(* The correspondence executes Rewrite.nrun (Pipeline.run on nodes: memo, used-parameter set, call log, the inner
+   runs of nested functions); the theorems of this property speak about Rewrite.neval.  They are tied by proof:
+   (1) without nested functions nrun is literally Pipe.run on the flattened keywords, so by the master theorem of C02
+       it equals neval - errors included; the only difference is the rejection of surplus keywords; *)
+Theorem C10_nrun_lift : forall body pick p o kw fk, flatten_scopes p kw = Ok fk ->
+  existsb (fun kv => str_eqb (fst kv) o) kw = false -> aget (flat_vals fk) o = None ->
+  nrun body pick (lift p) o kw
+  = (strip (fst (Pipe.run body pick p o (flat_vals fk) false)), snd (Pipe.run body pick p o (flat_vals fk) false)).
+Proof. exact nrun_lift. Qed.
+Print Assumptions C10_nrun_lift.
+
+Theorem C10_nrun_eq_neval_lifted : forall body pick p o kw fk, wf_pipeline p -> is_output p o = true ->
+  flatten_scopes p kw = Ok fk -> existsb (fun kv => str_eqb (fst kv) o) kw = false -> aget (flat_vals fk) o = None ->
+  fst (nrun body pick (lift p) o kw) =
+    match neval body pick (nfuel (lift p)) (lift p) (flat_vals fk) o with
+    | Err e => Err e
+    | Ok v => if subset_str (akeys (flat_vals fk)) (param_names_needed p (flat_vals fk) o) then Ok v
+              else Err UnusedParametersError
+    end.
+Proof. exact nrun_eq_neval_lifted. Qed.
+Print Assumptions C10_nrun_eq_neval_lifted.
+
+(* (2) with nested functions to ANY depth (nwf: unique outputs, consistent defaults, the original parameter names of a
+       nested function are not among the outputs it exports - at every level): every value that nrun returns is the
+       value of the specification.
+   run_eq_eval_nodes_partial - the full statement would be
+       fst (nrun p o kw) = match neval (nfuel p) p flat o with Err e => Err e | Ok v => <surplus-keyword check> end;
+   proved here is the direction value-of-run => value-of-spec (so a value observed in the correspondence is the
+   value the theorems speak about).  NOT proved for nested nodes: that nrun returns a value whenever neval does
+   (the inner run reaches every exported output and uses every argument: a reachability argument about the unique
+   leaf of the inner pipeline) and the agreement of the error kinds; both remain checked by the correspondence. *)
+Theorem C10_run_eq_eval_nodes_partial : forall body pick p o kw v lg, nwf p ->
+  nrun body pick p o kw = (Ok v, lg) ->
+  exists fk, flatten_scopes (funcs p) kw = Ok fk
+    /\ (aget (flat_vals fk) o = None -> exists F, neval body pick F p (flat_vals fk) o = Ok v)
+    /\ (forall w, aget (flat_vals fk) o = Some w -> w = v).
+Proof. exact nrun_value_sound. Qed.
+Print Assumptions C10_run_eq_eval_nodes_partial.
+
+Theorem C10_nwf_lift : forall p, NoDup (all_outputs p) -> consistent_defaults p = true -> nwf (lift p).
+Proof. exact nwf_lift. Qed.
+Print Assumptions C10_nwf_lift.
+
+(* the invariant behind it: the memo of a run holds the supplied keywords and, for every other key, the value of
+   the specification - through the inner runs of nested functions *)
+Theorem C10_nrun_out_sound : forall body pick n p kw st o st' v, nwf p -> Inv body pick p kw st ->
+  nrun_out body pick n p kw st o = (st', Ok v) -> Inv body pick p kw st' /\ aget (res st') o = Some v.
+Proof. exact nrun_out_sound. Qed.
+Print Assumptions C10_nrun_out_sound.
+
+Example C10_example_nrun :
+  let p := lift [mkf (s "f") [s "a"] [(s "x", s "x")] [] [] false;
+                 mkf (s "g") [s "b"] [(s "a", s "a"); (s "y", s "y")] [] [] false;
+                 mkf (s "h") [s "c"] [(s "b", s "b"); (s "a", s "a")] [] [] false] in
+  exists p', nest [s "a"; s "b"] (Some [s "a"; s "b"]) p = Ok p' /\ nwf p'
+    /\ fst (nrun Sym.body Sym.pick p' (s "c") (dotted [(s "x", s "X"); (s "y", s "Y")])) = Ok (s "h(b=g(a=f(x=X),y=Y),a=f(x=X))")
+    /\ neval Sym.body Sym.pick 5 p' [(s "x", s "X"); (s "y", s "Y")] (s "c") = Ok (s "h(b=g(a=f(x=X),y=Y),a=f(x=X))").
+Proof. exact nrun_instance. Qed.
 
 (* ---------- nest_funcs ---------- *)
 (* nest_preserves, in two halves (values are compared up to fuel: `neval n .. = Ok v` for some n).
@@ -261,12 +369,56 @@ Proof.
 Qed.
 
 (* ---------- simplified_pipeline ---------- *)
-(* NOT proved: simplify_preserves (every output retained by simplified_pipeline evaluates as in p).  The rewrite
-   is modelled (Model/Rewrite.simplify) and checked by correspondence only; it builds all NestedPipeFuncs at once
-   from the original functions, which the one-group theorem above does not cover.
-   What the model DOES show: "every request with combinable nodes is accepted" is false of the code - a function
-   combinable with two heads lands in two groups and the construction of the result is refused (known finding
-   simplify-shared-dependency) *)
+(* simplify_preserves, in two halves like nest_preserves (values up to fuel), for every request the code ACCEPTS
+   (`simplify o c p = Ok p'`; the requests of the known finding simplify-shared-dependency are refused, so nothing is
+   claimed about them).  No disjointness of the groups is needed: the output names chosen by _output_name keep every
+   output of a group that a function outside the group takes (shape_hid_rest / shape_hid_grp), and Pipeline
+   construction guarantees unique outputs of the result (add_all_unique).
+   Hypotheses: p has unique non-empty outputs, consistent defaults declared for parameters; the keywords do not name an
+   output of a combined function; for completeness the arguments of the new nested functions have values in p'. *)
+Theorem C10_simplify_sound : forall body pick o c p p' kw,
+  simplify o c p = Ok p' ->
+  (forall n1 n2 x, In n1 p -> In n2 p -> In x (outs (nf n1)) -> In x (outs (nf n2)) -> n1 = n2) ->
+  (forall n, In n p -> outs (nf n) <> []) ->
+  (forall n k, In n p -> In k (akeys (dflt (nf n))) -> In k (pnames (nf n))) ->
+  consistent_defaults (funcs p) = true ->
+  (forall plan, simplify_plan o c p = Ok plan ->
+     forall k nd, In k (akeys kw) -> In nd p -> In (nid nd) (flat_map fst (snd plan)) -> ~ In k (outs (nf nd))) ->
+  forall n o' v, neval body pick n p' kw o' = Ok v -> exists m, neval body pick m p kw o' = Ok v.
+Proof. exact simplify_sound. Qed.
+Print Assumptions C10_simplify_sound.
+
+Theorem C10_simplify_complete : forall body pick o c p p' kw,
+  simplify o c p = Ok p' ->
+  (forall n1 n2 x, In n1 p -> In n2 p -> In x (outs (nf n1)) -> In x (outs (nf n2)) -> n1 = n2) ->
+  (forall n, In n p -> outs (nf n) <> []) ->
+  (forall n k, In n p -> In k (akeys (dflt (nf n))) -> In k (pnames (nf n))) ->
+  consistent_defaults (funcs p) = true ->
+  (forall plan, simplify_plan o c p = Ok plan ->
+     forall k nd, In k (akeys kw) -> In nd p -> In (nid nd) (flat_map fst (snd plan)) -> ~ In k (outs (nf nd))) ->
+  (forall plan, simplify_plan o c p = Ok plan -> forall nd, In nd (skipn (length (fst plan)) p') ->
+     exists M args, args_with (neval body pick M p' kw) (funcs p') kw (nf nd) = Ok args) ->
+  forall n o' v, neval body pick n p kw o' = Ok v -> In o' (all_outputs (funcs p')) ->
+                 exists m, neval body pick m p' kw o' = Ok v.
+Proof. exact simplify_complete. Qed.
+Print Assumptions C10_simplify_complete.
+
+(* non-vacuity: f(x)->a, g(a)->b (same root arguments), h(b,y)->c ; simplified_pipeline('c') fuses f and g *)
+Example C10_example_simplify :
+  let p := lift [mkf (s "f") [s "a"] [(s "x", s "x")] [] [] false;
+                 mkf (s "g") [s "b"] [(s "a", s "a")] [] [] false;
+                 mkf (s "h") [s "c"] [(s "b", s "b"); (s "y", s "y")] [] [] false] in
+  exists p', simplify (s "c") false p = Ok p' /\ map (fun nd => outs (nf nd)) p' = [[s "c"]; [s "b"]]
+    /\ consistent_defaults (funcs p) = true
+    /\ neval Sym.body Sym.pick 5 p' [(s "x", s "X"); (s "y", s "Y")] (s "c") = Ok (s "h(b=g(a=f(x=X)),y=Y)")
+    /\ neval Sym.body Sym.pick 5 p [(s "x", s "X"); (s "y", s "Y")] (s "c") = Ok (s "h(b=g(a=f(x=X)),y=Y)").
+Proof.
+  cbv zeta. eexists. split; [vm_compute; reflexivity|]. split; [vm_compute; reflexivity|].
+  split; [vm_compute; reflexivity|]. split; vm_compute; reflexivity.
+Qed.
+
+(* "every request with combinable nodes is accepted" is false of the code - a function combinable with two heads lands
+   in two groups and the construction of the result is refused (known finding simplify-shared-dependency) *)
 Theorem C10_simplify_accepts_refuted :
   exists c, Run_C10.spec_ok c (Run_C10.run c) = false.
 Proof. exact simplify_refuted. Qed.
@@ -305,3 +457,172 @@ Example C10_example_add_axis :
         = [Some (s "x[i, k] -> y[i, k]"); Some (s "y[:, k] -> z[k]")]
      /\ depi [f; g] (s "x") 1.
 Proof. exact add_axis_instance. Qed.
+
+(* ---------- add_mapspec_axis, value level (pointwise core) ---------- *)
+From Verif Require Import Model.MapDenote Proofs.AddAxisValueFacts.
+
+(* stacking vs NumPy basic indexing: `stacked sh arrs` is what stack_last builds from arrays of one shape
+   (C10_stack_last_stacked); indexing it with a key that ends in the integer n is indexing the n-th array *)
+Theorem C10_stack_last_stacked : forall sh arrs,
+  (forall a, In a arrs -> shp a = sh /\ length (dat a) = prod sh) -> arrs <> [] ->
+  stack_last (map VA arrs) = Some (VA (stacked sh arrs)).
+Proof. exact stack_last_stacked. Qed.
+Print Assumptions C10_stack_last_stacked.
+
+Theorem C10_stacked_index_val : forall sh arrs,
+  (forall a, In a arrs -> shp a = sh /\ length (dat a) = prod sh) ->
+  forall key n a, nth_error arrs n = Some a ->
+  index_val (VA (stacked sh arrs)) (key ++ [KInt n]) = index_val (VA a) key.
+Proof. exact stacked_index_val. Qed.
+Print Assumptions C10_stacked_index_val.
+
+(* add_axis_lifts_partial.  FULL statement (property text): for a pipeline p without internal axes, p' with
+   add_axis [q] k p = Ok p', inputs that differ only in q := stack vs, every output array of denote_run p' whose
+   function depends on q has, as its slice at index n along the new (last) axis, the output of denote_run p for
+   q := vs[n], and the other outputs are equal.
+   PROVED here is the pointwise core for ONE function, on what the code (new_spec, the per-function step of
+   add_mapspec_axis) builds, in the case that the function already maps q and the axis is new to it: the element at
+   index idx ++ [n] of output j of the function with the new MapSpec, computed from q := stack of the arrays arrs,
+   is the element at index idx of output j of the function with the ORIGINAL MapSpec computed from q := arrs[n]
+   (MapDenote.denote_elem: the arguments delivered by the MapSpec at that index, the user code, the routing of the
+   j-th returned value; errors included).  It holds for any mask (internal axes allowed).
+   The two other branches of new_spec are below: a function WITHOUT MapSpec gets `q[:, .., k] -> outs[k]`
+   (C10_add_axis_lifts_fresh_partial); a mapped function that takes q WHOLE gets `q[:, .., k]` appended to its inputs
+   (C10_add_axis_lifts_whole_partial).  So the pointwise statement holds for every per-function step of
+   add_mapspec_axis in which the axis is new to the function.
+   The assembly of the elements into arrays, for one function without internal axes, is C10_add_axis_lifts_func_partial
+   and C10_add_axis_lifts_func_fresh_partial further below (slice_last of every output array).
+   NOT proved: the induction along the pipeline through func_shape (that the lifted MapSpecs get the shapes sh0 ++ [K]
+   and that the arrays handed from one function to the next are the stacked ones), and functions that already carry
+   the axis; they remain checked by the correspondence (Corr/Run_C10Map.v, kind add_axis: the implementation and
+   map_run are compared per slice). *)
+Theorem C10_add_axis_lifts_elem_partial : forall body f q dims k ms ms' e n sh arrs an kw mask idx j,
+  fspec f = Some ms -> mem_str q (map aname (ins ms)) = true ->
+  (forall a, In a (ins ms ++ outs ms) -> has_axis k a = false) ->
+  new_spec f q dims k = Ok ms' ->
+  (forall a, In a arrs -> shp a = sh /\ length (dat a) = prod sh) -> nth_error arrs n = Some an ->
+  length mask = length idx -> ext_of mask idx = e -> length e = length (external_indices ms) ->
+  stack_last (map VA arrs) = Some (VA (stacked sh arrs))
+  /\ denote_elem body f ms' (map (setq q (VA (stacked sh arrs))) kw) (mask ++ [true]) j (idx ++ [n])
+     = denote_elem body f ms (map (setq q (VA an)) kw) mask j idx.
+Proof. exact add_axis_lifts_elem. Qed.
+Print Assumptions C10_add_axis_lifts_elem_partial.
+
+(* a function without MapSpec that takes q (an input, or an output of a function that got the axis): new_spec gives it
+   `q[:, .., :, k] -> o1[k], .., om[k]` (dims: the rank of q after the axis is added); element n of its output j, from
+   q := stack of arrs, is the j-th value that the ORIGINAL unmapped call returns from q := arrs[n] (a scalar: the
+   model stores scalars in mapped outputs) - the full slice `:` of the stacked array at n is the n-th array *)
+Theorem C10_add_axis_lifts_fresh_partial : forall body f q k dims ms', fspec f = None -> new_spec f q dims k = Ok ms' ->
+  forall sh arrs, (forall a, In a arrs -> shp a = sh /\ length (dat a) = prod sh) ->
+  dict_get dims q = Some (Datatypes.S (length sh)) -> sh <> [] ->
+  forall n an, nth_error arrs n = Some an -> forall kw j,
+  denote_elem body f ms' (map (setq q (VA (stacked sh arrs))) kw) [true] j [n]
+  = do outs <- body f (map (setq q (VA an)) kw);
+    match nth_error outs j with
+    | Some (VS x) => Ok x
+    | _ => Err ValueError
+    end.
+Proof. exact fresh_elem. Qed.
+Print Assumptions C10_add_axis_lifts_fresh_partial.
+
+(* a mapped function that takes q whole (q is not among the inputs of its MapSpec) *)
+Theorem C10_add_axis_lifts_whole_partial : forall body f q dims k ms ms' e n sh arrs an kw mask idx j,
+  fspec f = Some ms -> mem_str q (map aname (ins ms)) = false ->
+  (forall a, In a (ins ms ++ outs ms) -> has_axis k a = false) ->
+  dict_get dims q = Some (Datatypes.S (length sh)) -> sh <> [] ->
+  new_spec f q dims k = Ok ms' ->
+  (forall a, In a arrs -> shp a = sh /\ length (dat a) = prod sh) -> nth_error arrs n = Some an ->
+  length mask = length idx -> ext_of mask idx = e -> length e = length (external_indices ms) ->
+  denote_elem body f ms' (map (setq q (VA (stacked sh arrs))) kw) (mask ++ [true]) j (idx ++ [n])
+  = denote_elem body f ms (map (setq q (VA an)) kw) mask j idx.
+Proof. exact add_axis_lifts_elem_whole. Qed.
+Print Assumptions C10_add_axis_lifts_whole_partial.
+
+Example C10_example_add_axis_whole :
+  let A nm ax := {| aname := nm; axes := ax |} in
+  let ms := {| ins := [A (s "x") [Some (s "i")]]; outs := [A (s "y") [Some (s "i")]] |} in
+  let h := {| fname := s "h"; fouts := [s "y"]; fparams := [s "x"; s "w"]; fbound := []; fdefaults := [];
+              fspec := Some ms; fint := []; fret := [] |} in
+  let a0 := {| shp := [2]; dat := [s "p"; s "q"] |} in
+  let a1 := {| shp := [2]; dat := [s "r"; s "t"] |} in
+  let X := VA {| shp := [2]; dat := [s "u"; s "v"] |} in
+  let body := fun (g : mfunc) (kw : env) =>
+                match kw with [(_, VS x); (_, VA a)] => Ok [VS (s "h(" ++ x ++ s "," ++ StrUtil.join (s "|") (dat a) ++ s ")")] | _ => Err ValueError end in
+  exists ms', new_spec h (s "w") [(s "w", 2)] (s "k") = Ok ms' /\ print ms' = s "x[i], w[:, k] -> y[i, k]"
+    /\ denote_elem body h ms' [(s "x", X); (s "w", VA (stacked [2] [a0; a1]))] [true; true] 0 [1; 1] = Ok (s "h(v,r|t)")
+    /\ denote_elem body h ms [(s "x", X); (s "w", VA a1)] [true] 0 [1] = Ok (s "h(v,r|t)").
+Proof. exact add_axis_whole_instance. Qed.
+
+Example C10_example_add_axis_fresh :
+  let g := {| fname := s "g"; fouts := [s "z"]; fparams := [s "y"; s "c"]; fbound := []; fdefaults := [];
+              fspec := None; fint := []; fret := [] |} in
+  let a0 := {| shp := [2]; dat := [s "p"; s "q"] |} in
+  let a1 := {| shp := [2]; dat := [s "r"; s "t"] |} in
+  let body := fun (h : mfunc) (kw : env) =>
+                match kw with [(_, VA a); (_, VS c)] => Ok [VS (s "g(" ++ StrUtil.join (s "|") (dat a) ++ s "," ++ c ++ s ")")] | _ => Err ValueError end in
+  exists ms', new_spec g (s "y") [(s "y", 2)] (s "k") = Ok ms' /\ print ms' = s "y[:, k] -> z[k]"
+    /\ denote_elem body g ms' [(s "y", VA (stacked [2] [a0; a1])); (s "c", VS (s "C"))] [true] 0 [1] = Ok (s "g(r|t,C)")
+    /\ body g [(s "y", VA a1); (s "c", VS (s "C"))] = Ok [VS (s "g(r|t,C)")].
+Proof. exact add_axis_fresh_instance. Qed.
+
+Example C10_example_add_axis_lifts :
+  let A nm ax := {| aname := nm; axes := ax |} in
+  let ms := {| ins := [A (s "x") [Some (s "i")]]; outs := [A (s "y") [Some (s "i")]] |} in
+  let f := {| fname := s "f"; fouts := [s "y"]; fparams := [s "x"]; fbound := []; fdefaults := [];
+              fspec := Some ms; fint := []; fret := [] |} in
+  let a0 := {| shp := [2]; dat := [s "p"; s "q"] |} in
+  let a1 := {| shp := [2]; dat := [s "r"; s "t"] |} in
+  let body := fun (g : mfunc) (kw : env) => match kw with [(_, VS v)] => Ok [VS (s "f(" ++ v ++ s ")")] | _ => Err ValueError end in
+  exists ms', new_spec f (s "x") [(s "x", 2)] (s "k") = Ok ms' /\ print ms' = s "x[i, k] -> y[i, k]"
+    /\ stacked [2] [a0; a1] = {| shp := [2; 2]; dat := [s "p"; s "r"; s "q"; s "t"] |}
+    /\ denote_elem body f ms' [(s "x", VA (stacked [2] [a0; a1]))] [true; true] 0 [1; 0] = Ok (s "f(q)")
+    /\ denote_elem body f ms [(s "x", VA a0)] [true] 0 [1] = Ok (s "f(q)").
+Proof. exact add_axis_lifts_instance. Qed.
+
+(* ---------- add_mapspec_axis, value level, one function, arrays ---------- *)
+(* a function WITH a MapSpec and no internal axes (mask all true; sh0 its output shape, one entry per external index);
+   both branches of new_spec (q mapped by the function / q taken whole): if the function with the new MapSpec, applied
+   to q := stack of arrs, yields the arrays arrs' of shape sh0 ++ [K], then for every n the ORIGINAL function applied
+   to q := arrs[n] yields arrays arrs_n, and the slice of each array of arrs' at n along the new (last) axis
+   (slice_last) is the corresponding array of arrs_n (as_val: a 0-d result is the scalar) *)
+Theorem C10_add_axis_lifts_func_partial : forall body f q dims k ms ms' sh arrs kw sh0 mask arrs',
+  fspec f = Some ms ->
+  (forall a, In a (ins ms ++ outs ms) -> has_axis k a = false) ->
+  (mem_str q (map aname (ins ms)) = true \/ (dict_get dims q = Some (Datatypes.S (length sh)) /\ sh <> [])) ->
+  new_spec f q dims k = Ok ms' ->
+  (forall a, In a arrs -> shp a = sh /\ length (dat a) = prod sh) ->
+  forallb id mask = true -> length mask = length sh0 -> length sh0 = length (external_indices ms) ->
+  denote_mapped body f ms' (map (setq q (VA (stacked sh arrs))) kw) (sh0 ++ [length arrs]) (mask ++ [true]) = Ok arrs' ->
+  forall n an, nth_error arrs n = Some an ->
+  exists arrs_n, denote_mapped body f ms (map (setq q (VA an)) kw) sh0 mask = Ok arrs_n
+    /\ Forall2 (fun A' A => slice_last n (VA A') = Some (as_val A)) arrs' arrs_n.
+Proof. exact add_axis_lifts_func. Qed.
+Print Assumptions C10_add_axis_lifts_func_partial.
+
+(* a function WITHOUT MapSpec: element n of output array j of the function that got `q[:, .., k] -> outs[k]` is the
+   j-th value the original unmapped call returns from q := arrs[n] *)
+Theorem C10_add_axis_lifts_func_fresh_partial : forall body f q k dims ms' sh arrs kw arrs',
+  fspec f = None -> new_spec f q dims k = Ok ms' ->
+  (forall a, In a arrs -> shp a = sh /\ length (dat a) = prod sh) ->
+  dict_get dims q = Some (Datatypes.S (length sh)) -> sh <> [] ->
+  denote_mapped body f ms' (map (setq q (VA (stacked sh arrs))) kw) [length arrs] [true] = Ok arrs' ->
+  forall n an, nth_error arrs n = Some an -> forall j A', nth_error arrs' j = Some A' ->
+  exists outs_n x, body f (map (setq q (VA an)) kw) = Ok outs_n /\ nth_error outs_n j = Some (VS x)
+                   /\ shp A' = [length arrs] /\ nth_error (dat A') n = Some x.
+Proof. exact add_axis_lifts_func_fresh. Qed.
+Print Assumptions C10_add_axis_lifts_func_fresh_partial.
+
+Example C10_example_add_axis_lifts_func :
+  let A nm ax := {| aname := nm; axes := ax |} in
+  let ms := {| ins := [A (s "x") [Some (s "i")]]; outs := [A (s "y") [Some (s "i")]] |} in
+  let f := {| fname := s "f"; fouts := [s "y"]; fparams := [s "x"]; fbound := []; fdefaults := [];
+              fspec := Some ms; fint := []; fret := [] |} in
+  let a0 := {| shp := [2]; dat := [s "p"; s "q"] |} in
+  let a1 := {| shp := [2]; dat := [s "r"; s "t"] |} in
+  let body := fun (g : mfunc) (kw : env) => match kw with [(_, VS v)] => Ok [VS (s "f(" ++ v ++ s ")")] | _ => Err ValueError end in
+  exists ms' Y' Y1, new_spec f (s "x") [(s "x", 2)] (s "k") = Ok ms'
+    /\ denote_mapped body f ms' [(s "x", VA (stacked [2] [a0; a1]))] [2; 2] [true; true] = Ok [Y']
+    /\ Y' = {| shp := [2; 2]; dat := [s "f(p)"; s "f(r)"; s "f(q)"; s "f(t)"] |}
+    /\ denote_mapped body f ms [(s "x", VA a1)] [2] [true] = Ok [Y1]
+    /\ slice_last 1 (VA Y') = Some (VA Y1).
+Proof. exact add_axis_lifts_func_instance. Qed.
